@@ -20,9 +20,10 @@ SPEC = {
     "gens": ["gen_hostmap"],
     "props": ["props/C29.v"],
     "corr": ["corr/HostMap_corr.v"],
-    "comps": [{"comp": "hostmap_idx", "n_quick": 300, "n_thorough": 6000}, {"comp": "sysmon_C29", "e2e": True, "n_quick": 12, "n_thorough": 150}],
+    "comps": [{"comp": "hostmap_idx", "n_quick": 300, "n_thorough": 6000}, {"comp": "hostmap_rx", "n_quick": 160, "n_thorough": 3000}, {"comp": "sysmon_C29", "e2e": True, "n_quick": 12, "n_thorough": 150}],
     "build_comp": "hostmap",
-    "trusted": ["model/HostMap.v mirrors allocateIndex (32 tries, pending and main map checked), generateIndex (zero skipped), CheckAndComplete's "
+    "trusted": ["the component hostmap_rx runs the same histories on a node with a real PKI, the pending operations going through the timer routine's handleOutbound (handshake.Machine -> allocateIndex; timeout), HandleIncoming -> beginHandshake, and continueHandshake called with the handshake pointer the rx routine resolved earlier (authenticated replies for current, timed-out, abandoned and re-issued handshakes), so continueHandshake's own still-tracked test is under test instead of a guard in the harness",
+                "model/HostMap.v mirrors allocateIndex (32 tries, pending and main map checked), generateIndex (zero skipped), CheckAndComplete's "
                 "ErrLocalIndexCollision checks, Complete, AddRelay (32 tries, promotion first) and both unlockedDeleteHostInfo functions; tied by "
                 "the correspondence",
                 "a second allocateIndex for the same pending hostinfo (handshake.Machine.Initiate failing after the allocation) is not modelled: "
